@@ -27,7 +27,7 @@ EXPLANATION = (
 )
 
 MANIFEST = {
-    "technique": "static analysis: stage discovery, helper effect summaries, nullness-aware CFG path queries for must-inspect-exit-status and bounded waits, liveness of unbounded queues, handler-swallow analysis incl. context managers, finite-domain evaluation of the exit-status test (every failing exit code of every worker raises); exception landing by exception class (handlers / finally blocks on the way out); blocking queue flush on the exception path of a status check; receive delegated to helpers (effect summaries incl. blocking vs timed get); mutation of a worker list while it is iterated; pool objects / context managers taken apart before the stage analysis; no unbounded wait (join without timeout) between a failed exit status and the raise",
+    "technique": "static analysis: stage discovery, helper effect summaries, nullness-aware CFG path queries for must-inspect-exit-status and bounded waits, liveness of unbounded queues, handler-swallow analysis incl. context managers, finite-domain evaluation of the exit-status test (every failing exit code of every worker raises); exception landing by exception class (handlers / finally blocks on the way out); blocking queue flush on the exception path of a status check; receive delegated to helpers (effect summaries incl. blocking vs timed get); mutation of a worker list while it is iterated; pool objects / context managers taken apart before the stage analysis; no unbounded wait (join without timeout) between a failed exit status and the raise; a handler for queue timeouts must not cover the processing call; a join / status loop that removes entries from the list it walks; any non-re-raising handler around a context manager's yield",
     "text": "Decides on all paths of every parallel stage, worker and serial sibling the structural premises under which a processing error must surface in the caller (exit status inspected after join; liveness observed in every unbounded wait; no swallowing handler or context manager).",
     "note": "Trusted: a Python worker process that raises exits with a non-zero exitcode; Process.join/exitcode/is_alive contracts. Residual not covered: queue.join_thread() can block if all workers die with more than a pipe buffer of items pending.",
 }
